@@ -519,6 +519,47 @@ fn body_record(cx: &mut Ctx, body: &Body, depth: usize) -> (Value, Value, Value)
             }
         }
     }
+    // vtable methods: an unsizing coercion of a workspace type to `dyn Trait` makes the trait's methods for that type callable
+    // through the vtable only (e.g. `Box<rpc::Server<R, H>>` -> `Box<dyn ServerTrait>`): queue those instances as well,
+    // otherwise their bodies (and the async blocks inside them) never appear in the dump.
+    for b in body.blocks.iter() {
+        for st in b.statements.iter() {
+            if let rustc_public::mir::StatementKind::Assign(_, rustc_public::mir::Rvalue::Cast(rustc_public::mir::CastKind::PointerCoercion(rustc_public::mir::PointerCoercion::Unsize), op, target)) = &st.kind {
+                let Ok(src) = op.ty(body.locals()) else { continue };
+                if has_param(&src, 0) || has_param(target, 0) || !format!("{target}").contains("dyn ") { continue }
+                let tcx = cx.tcx;
+                let (src, target) = (src, *target);
+                let found = catch_unwind(AssertUnwindSafe(|| {
+                    let isrc = rustc_internal::internal(tcx, src);
+                    let idst = rustc_internal::internal(tcx, target);
+                    fn pointee<'t>(t: rustc_middle::ty::Ty<'t>) -> Option<rustc_middle::ty::Ty<'t>> {
+                        if let Some(b) = t.boxed_ty() { return Some(b); }
+                        if let Some(inner) = t.builtin_deref(true) { return Some(inner); }
+                        None
+                    }
+                    let (Some(ps), Some(pd)) = (pointee(isrc), pointee(idst)) else { return vec![] };
+                    let typing = rustc_middle::ty::TypingEnv::fully_monomorphized();
+                    let (ts, td) = tcx.struct_lockstep_tails_for_codegen(ps, pd, typing);
+                    let rustc_middle::ty::Dynamic(preds, ..) = td.kind() else { return vec![] };
+                    let Some(principal) = preds.principal() else { return vec![] };
+                    let trait_ref = tcx.instantiate_bound_regions_with_erased(principal.with_self_ty(tcx, ts));
+                    let mut out = vec![];
+                    for e in tcx.vtable_entries(trait_ref) {
+                        if let rustc_middle::ty::VtblEntry::Method(inst) = e {
+                            let st: Instance = rustc_internal::stable(*inst);
+                            out.push(st);
+                        }
+                    }
+                    out
+                }));
+                if std::env::var("MIRDUMP_DEBUG").is_ok() { eprintln!("mirdump unsize {} -> {}: {:?}", src, target, found.as_ref().map(|l| l.len()).map_err(|_| "panic")); }
+                // only instances of workspace items are wanted (Debug / Display / Error vtables of std types are noise)
+                if let Ok(list) = found {
+                    for inst in list { if is_workspace_name(&inst.name()) { cx.insts.push((inst, depth)); } }
+                }
+            }
+        }
+    }
     let cmap: serde_json::Map<String, Value> = consts.into_iter().map(|(k, v)| (k.to_string(), v)).collect();
     (strip_body(serde_json::to_value(body).unwrap()), Value::Object(drops), Value::Object(cmap))
 }
